@@ -247,4 +247,66 @@ pub fn load_tick_array(account: &UncheckedAccount<'_>, whirlpool: &Pubkey) -> (r
             && final(ctx.accounts).position.data.fee_growth_checkpoint_a == pu.fee_growth_checkpoint_a && final(ctx.accounts).position.data.fee_growth_checkpoint_b == pu.fee_growth_checkpoint_b
             && final(ctx.accounts).position.data.tick_lower_index == old(ctx.accounts).position.data.tick_lower_index && final(ctx.accounts).position.data.tick_upper_index == old(ctx.accounts).position.data.tick_upper_index, //# C07 C11
 //@ end
+
+// ------------------------------------------------------------------ reachability canaries (vacuity guard, see tools/run.py)
+/// reachability canary (must FAIL): the same body with the contract 'never succeeds'
+//@ fn instructions/close_position.rs handler -> r as=reach_canary_close_position_handler tags=C18,C04
+    ensures r is Err,
+//@ end
+/// reachability canary (must FAIL): the same body with the contract 'never succeeds'
+//@ fn instructions/collect_fees.rs handler -> r as=reach_canary_collect_fees_handler tags=C04,C07,C01,C06
+    ensures r is Err,
+//@ end
+/// reachability canary (must FAIL): the same body with the contract 'never succeeds'
+//@ fn instructions/collect_protocol_fees.rs handler -> r as=reach_canary_collect_protocol_fees_handler tags=C06,C01
+    ensures r is Err,
+//@ end
+/// reachability canary (must FAIL): the same body with the contract 'never succeeds'
+//@ fn instructions/lock_position.rs handler -> r as=reach_canary_lock_position_handler tags=C18,C04
+    requires !old(ctx.accounts).position_token_account.data.frozen, // enforced by the (dropped) account constraint `!position_token_account.is_frozen()`
+    ensures r is Err,
+//@ rewrite /&\[\s*b"position"\.as_ref\(\),[^\]]*\[ctx\.bumps\.position\],\s*\]/ => /position_seeds_shim()/
+//@ end
+/// reachability canary (must FAIL): the same body with the contract 'never succeeds'
+//@ fn instructions/set_reward_emissions.rs handler -> r as=reach_canary_set_reward_emissions_handler tags=C11
+    ensures r is Err,
+//@ end
+/// reachability canary (must FAIL): the same body with the contract 'never succeeds'
+//@ fn instructions/v2/set_reward_emissions.rs handler -> r as=reach_canary_set_reward_emissions_v2_handler tags=C11
+    ensures r is Err,
+//@ end
+/// reachability canary (must FAIL): the same body with the contract 'never succeeds'
+//@ fn instructions/collect_reward.rs handler -> r as=reach_canary_collect_reward_handler tags=C11,C04
+    requires reward_index < 3, // an index above 2 panics on the array access (the transaction fails)
+    ensures r is Err,
+//@ end
+/// reachability canary (must FAIL): the same body with the contract 'never succeeds'
+//@ fn instructions/open_position.rs handler -> r as=reach_canary_open_position_handler tags=C18
+    requires old(ctx.accounts).whirlpool.data.tick_spacing > 0, price_ok(old(ctx.accounts).whirlpool.data.sqrt_price as int),
+    ensures r is Err,
+//@ rewrite /emit!\(PositionOpened \{/ => /emit_position_opened(PositionOpened {/
+//@ end
+/// reachability canary (must FAIL): the same body with the contract 'never succeeds'
+//@ fn instructions/open_bundled_position.rs handler -> r as=reach_canary_open_bundled_position_handler tags=C18
+    requires old(ctx.accounts).whirlpool.data.tick_spacing > 0, price_ok(old(ctx.accounts).whirlpool.data.sqrt_price as int),
+    ensures r is Err,
+//@ rewrite /emit!\(PositionOpened \{/ => /emit_position_opened(PositionOpened {/
+//@ end
+/// reachability canary (must FAIL): the same body with the contract 'never succeeds'
+//@ fn instructions/v2/collect_fees.rs handler -> r as=reach_canary_collect_fees_v2_handler tags=C04,C07,C01,C06
+    ensures r is Err,
+//@ end
+/// reachability canary (must FAIL): the same body with the contract 'never succeeds'
+//@ fn instructions/v2/collect_protocol_fees.rs handler -> r as=reach_canary_collect_protocol_fees_v2_handler tags=C06,C01
+    ensures r is Err,
+//@ end
+/// reachability canary (must FAIL): the same body with the contract 'never succeeds'
+//@ fn instructions/v2/collect_reward.rs handler -> r as=reach_canary_collect_reward_v2_handler tags=C11,C04
+    requires reward_index < 3,
+    ensures r is Err,
+//@ end
+/// reachability canary (must FAIL): the same body with the contract 'never succeeds'
+//@ fn instructions/update_fees_and_rewards.rs handler -> r as=reach_canary_update_fees_and_rewards_handler tags=C07,C11,C15
+    ensures r is Err,
+//@ end
 }
